@@ -346,11 +346,20 @@ def classify(case, impl, why):
     return None
 
 
+def _canon(step):
+    """whether a step that SUCCEEDS reallocates the (heap) buffer is not the property's business: resize to the
+    current length may skip the realloc.  (A buffer that is not heap memory is the oracle's matter: every demand on
+    non-heap objects asks for rb=0; a step that must be refused differs from the model in its outcome.)"""
+    return re.sub(r'^(ok fo=0 ro=0 fb=0) rb=\d ', r'\1 rb=* ', step)
+
+
 def corr(case, impl, model):
     a = strip_use(impl)
     if a == model:
         return None
-    x, y = a.split(' | '), model.split(' | ')
+    x, y = [_canon(t) for t in a.split(' | ')], [_canon(t) for t in model.split(' | ')]
+    if x == y:
+        return None
     for n, (p, q) in enumerate(zip(x, y)):
         if p != q:
             return 'field %d: implementation "%s" / model "%s"' % (n, p, q)
